@@ -34,7 +34,24 @@ def escapeDq : Str → Str
   | [] => []
   | c :: cs => if c == '"' then '\\' :: '"' :: escapeDq cs else c :: escapeDq cs
 
-def normalizeTitle (t : Str) : Str := '"' :: escapeDq (stripChar '"' t) ++ ['"']
+/-- inline link / image titles: the title text, escaped and double-quoted -/
+def normalizeTitle (t : Str) : Str := '"' :: escapeDq t ++ ['"']
+
+/-- `re.sub(r'(?<!\\)"', r'\\"', s)`: escape double quotes not already preceded by a backslash -/
+def escapeBareDq : Bool → Str → Str
+  | _, [] => []
+  | prevBs, c :: cs =>
+    if c == '"' && !prevBs then '\\' :: '"' :: escapeBareDq false cs
+    else c :: escapeBareDq (c == '\\') cs
+
+/-- link reference definition titles (`raw=True`): exchange `'…'` / `(…)` delimiters for `"…"` -/
+def normalizeTitleRaw (t : Str) : Str :=
+  match t.head?, t.getLast? with
+  | some a, some b =>
+    if decide (2 ≤ t.length) && ((a == '\'' && b == '\'') || (a == '(' && b == ')')) then
+      '"' :: escapeBareDq false (t.drop 1).dropLast ++ ['"']
+    else t
+  | _, _ => t
 
 def isAllDigits (s : Str) : Bool := !s.isEmpty && s.all fun c => c.isDigit
 
@@ -47,10 +64,16 @@ def renderLiteral (inHeading : Bool) (acc : Str) (c : Str) : Str × Str :=
     let stripped := lstrip acc
     if isAllDigits stripped then ('\\' :: c, acc ++ '\\' :: c) else (c, acc ++ c)
 
+/-- longest run of `ch` in `s` (`cur` = length of the run ending here). -/
+def longestRun (ch : Char) : Str → Nat → Nat → Nat
+  | [], cur, best => max cur best
+  | c :: cs, cur, best => if c == ch then longestRun ch cs (cur + 1) best else longestRun ch cs 0 (max cur best)
+
 def renderCodeSpan (t : Str) : Str :=
+  let delim := List.replicate (longestRun '`' t 0 0 + 1) '`'
   if !t.isEmpty && (t.head? == some '`' || t.getLast? == some '`') then
-    "`` ".toList ++ t ++ " ``".toList
-  else '`' :: t ++ ['`']
+    delim ++ ' ' :: t ++ ' ' :: delim
+  else delim ++ t ++ delim
 
 def findLabel (defs : List (Str × Str × Option Str)) (dest : Str) (title : Option Str) : Option Str :=
   (defs.find? fun d => d.2.1 == dest && d.2.2 == title).map (·.1)
@@ -113,6 +136,19 @@ def minFenceLength (content : Str) (ch : Char) : Nat :=
 
 def rstripNl (s : Str) : Str := (s.reverse.dropWhile (· == '\n')).reverse
 
+/-- `_strip_trailing_blank_lines(text, prefix)`: trailing newlines and trailing lines holding only
+`prefix.rstrip()`. `fuel` bounds the loop by the text length. -/
+def stripTrailingBlankAux (blank : Str) : Nat → Str → Str
+  | 0, t => t
+  | n + 1, t =>
+    if !blank.isEmpty && endsWith t ('\n' :: blank) then
+      stripTrailingBlankAux blank n (rstripNl (t.take (t.length - blank.length)))
+    else t
+
+def stripTrailingBlank (text pfx : Str) : Str :=
+  let t := rstripNl text
+  stripTrailingBlankAux (rstrip pfx) t.length t
+
 def renderCodeLines (st : RState) (content : Str) (lang extra : Str) (isFenced : Bool)
     (fch : Char) (flen : Nat) : Str :=
   let content := rstripNl content
@@ -141,12 +177,12 @@ def renderRow (cfg : RCfg) (acc : Str) : List (List Inline) → List Str × Str
 
 def rowLine (cells : List Str) : Str := "| ".toList ++ joinWith " | ".toList cells ++ " |\n".toList
 
-def renderRows (cfg : RCfg) (acc : Str) : List (List (List Inline)) → Str × Str
+def renderRows (cfg : RCfg) (snd : Str) (acc : Str) : List (List (List Inline)) → Str × Str
   | [] => ([], acc)
   | row :: rest =>
     let r := renderRow cfg acc row
-    let r2 := renderRows cfg r.2 rest
-    (rowLine r.1 ++ r2.1, r2.2)
+    let r2 := renderRows cfg snd r.2 rest
+    (snd ++ rowLine r.1 ++ r2.1, r2.2)
 
 def canBeTight : List Block → Bool
   | [] => true
@@ -185,12 +221,14 @@ mutual
     | .quote bs =>
       let inner := { st with skipBlank := false, pfx := st.pfx ++ "> ".toList, snd := st.snd ++ "> ".toList }
       let r := renderBlocks cfg inner bs
-      (rstripNl r.1 ++ ['\n'], { r.2 with pfx := st.snd, snd := st.snd, suppress := false })
+      (stripTrailingBlank r.1 inner.snd ++ ['\n'],
+       { r.2 with pfx := st.snd, snd := st.snd, suppress := false, skipBlank := false })
     | .alert ty bs =>
-      let inner := { st with skipBlank := false, pfx := st.pfx ++ "> ".toList, snd := st.snd ++ "> ".toList }
+      -- the header line uses up the first-line prefix
+      let inner := { st with skipBlank := false, pfx := st.snd ++ "> ".toList, snd := st.snd ++ "> ".toList }
       let r := renderBlocks cfg inner bs
-      ("> [!".toList ++ ty ++ "]\n".toList ++ rstripNl r.1 ++ ['\n'],
-       { r.2 with pfx := st.snd, snd := st.snd, suppress := false })
+      (st.pfx ++ "> [!".toList ++ ty ++ "]\n".toList ++ stripTrailingBlank r.1 inner.snd ++ ['\n'],
+       { r.2 with pfx := st.snd, snd := st.snd, suppress := false, skipBlank := false })
     | .fenced lang extra content fch flen =>
       (renderCodeLines st content lang extra true fch flen,
        { st with skipBlank := false, pfx := st.snd, suppress := false })
@@ -204,14 +242,15 @@ mutual
       if r.1.getLast? == some '\\' then
         (head ++ ['\n'], { st with acc := [], pfx := st.snd })
       else
-        (head ++ ['\n', '\n'], { st with acc := [], pfx := st.snd, skipBlank := true, suppress := true })
+        (head ++ '\n' :: rstrip st.snd ++ ['\n'],
+         { st with acc := [], pfx := st.snd, skipBlank := true, suppress := true })
     | .blank =>
       if st.skipBlank then ([], { st with skipBlank := false })
       else
         ((if (strip st.pfx).isEmpty then ['\n'] else st.pfx ++ ['\n']),
          { st with suppress := true, pfx := st.snd })
     | .linkdef label dest title =>
-      let t : Str := match title with | some x => ' ' :: normalizeTitle x | none => []
+      let t : Str := match title with | some x => ' ' :: normalizeTitleRaw x | none => []
       (st.pfx ++ '[' :: label ++ "]: ".toList ++ dest ++ t ++ ['\n'],
        { st with pfx := st.snd, suppress := true })
     | .fndef label bs =>
@@ -221,8 +260,8 @@ mutual
     | .table head delims rows =>
       let h := renderRow cfg st.acc head
       let d : Str := "| ".toList ++ joinWith " | ".toList (delims.map normalizeDelim) ++ " |\n".toList
-      let b := renderRows cfg h.2 rows
-      (rowLine h.1 ++ d ++ b.1, { st with acc := b.2 })
+      let b := renderRows cfg st.snd h.2 rows
+      (st.pfx ++ rowLine h.1 ++ st.snd ++ d ++ b.1, { st with acc := b.2, pfx := st.snd })
 
   def renderBlocks (cfg : RCfg) (st : RState) : List Block → Str × RState
     | [] => ([], st)
@@ -231,15 +270,16 @@ mutual
       let r2 := renderBlocks cfg r.2 rest
       (r.1 ++ r2.1, r2.2)
 
-  /-- the item loop of `render_list`: `container(prefix, indent)` around each child; on exit the
-  *entry* values of `_prefix`/`_second_prefix` are restored. -/
+  /-- the item loop of `render_list`: `container(prefix, indent)` around each child; after each
+  item the continuation prefix is current (the first-line prefix is used up by the first item). -/
   def renderItems (cfg : RCfg) (st : RState) (ordered : Bool) (start : Nat) (bullet : Str) (i : Nat) :
       List Block → Str × RState
     | [] => ([], st)
     | b :: rest =>
       let p := itemPrefix ordered start i bullet
       let r := renderBlock cfg { st with pfx := st.pfx ++ p.1, snd := st.snd ++ p.2 } b
-      let r2 := renderItems cfg { r.2 with pfx := st.pfx, snd := st.snd } ordered start bullet (i + 1) rest
+      -- container exit restores the entry prefixes; then `self._prefix = self._second_prefix`
+      let r2 := renderItems cfg { r.2 with pfx := st.snd, snd := st.snd } ordered start bullet (i + 1) rest
       (r.1 ++ r2.1, r2.2)
 end
 
